@@ -23,7 +23,8 @@
 static int g_topo = 0;
 static int g_pool = 0;
 static int g_nreq = 2;
-static int g_tprov = 0;   /* 1: the providers answer uref_mgr / uclock inside register (synchronously) */
+static int g_tprov = 0;   /* 1: the providers answer uref_mgr / uclock inside register (synchronously);
+                           * 2: the providers decline every request (UNHANDLED): the probes must then be asked */
 static int g_cbmode = 0;  /* 1: the uref_mgr callback withdraws and re-issues the uclock request (the way a
                            * flow-format answer makes a filter re-require its ubuf manager) */
 static bool g_in_requeue;
@@ -47,6 +48,7 @@ struct st {
     int p2_out;      /* 0 none, 1 T0, 2 T1 */
     bool p2_released, p1_released;
     bool p1_inner;   /* topology 4: the bin has an inner pipe */
+    int reg_cb_base[NREQ]; /* callbacks recorded when the request was registered */
     struct cbrec cb[64];
     int ncb;
     uint64_t hist_hash;
@@ -143,8 +145,10 @@ static void *init(void)
     struct px_fix *fx = &st->fx;
     for (int r = 0; r < NREQ; r++)
         urequest_init(&st->req[r], req_types[r], NULL, head_provide, NULL);
-    for (int k = 0; k < 2; k++)
-        fx->sinks[k].sync_provide = g_tprov != 0;
+    for (int k = 0; k < 2; k++) {
+        fx->sinks[k].sync_provide = g_tprov == 1;
+        fx->sinks[k].unhandled_requests = g_tprov == 2;
+    }
     g_in_requeue = false;
     switch (g_topo) {
     case 0:
@@ -232,8 +236,8 @@ static void check_routing(struct st *st, const char *when)
     for (int r = 0; r < g_nreq; r++) {
         int t = req_types[r];
         int want = -1; /* sink that must hold it, -1 none */
-        if (st->reg[r] && st->p1_inner && st->p1_out == 1 && st->p2_out != 0)
-            want = st->p2_out - 1;
+        if (st->reg[r] && st->p1_inner && st->p1_out == 1 && st->p2_out != 0 && g_tprov != 2)
+            want = st->p2_out - 1; /* (providers that decline hold nothing) */
         for (int k = 0; k < 2; k++) {
             int n = lodged(st, k, t);
             int exp = (k == want) ? 1 : 0;
@@ -249,6 +253,27 @@ static void check_routing(struct st *st, const char *when)
     for (int k = 0; k < 2; k++)
         if (st->fx.sinks[k].unreg_unknown)
             FAIL(st, "unregister-of-unknown-request", "%s: provider T%d was asked to unregister a request it does not hold", when, k);
+}
+
+/* providers that decline: a request nobody downstream handles ends up at the probes, which answer
+ * uref_mgr and uclock at once */
+static void check_probe_fallback(struct st *st, const char *when)
+{
+    if (g_tprov != 2 || (g_topo == 3 && !loop_idle(st)) || !st->p1_inner)
+        return;
+    for (int r = 0; r < g_nreq && r < 2; r++) {
+        if (!st->reg[r])
+            continue;
+        int n = 0;
+        for (int i = st->reg_cb_base[r]; i < st->ncb; i++)
+            n += st->cb[i].req == r;
+        if (n == 0) {
+            char sg[64];
+            snprintf(sg, sizeof(sg), "never-answered:%s", req_names[r]);
+            FAIL(st, sg, "%s: the %s request is registered, no pipe downstream handles it, and the probes (which provide it) were never asked", when,
+                 req_names[r]);
+        }
+    }
 }
 
 static void check_callbacks(struct st *st, const char *when)
@@ -333,6 +358,7 @@ static int apply(void *vst, int op, bool check)
     if (op >= OP_REG0 && op <= OP_REG2) {
         int r = op - OP_REG0;
         st->reg[r] = true;
+        st->reg_cb_base[r] = st->ncb;
         upipe_register_request(head_pipe(st), &st->req[r]);
     } else if (op >= OP_UNREG0 && op <= OP_UNREG2) {
         int r = op - OP_UNREG0;
@@ -387,8 +413,10 @@ static int apply(void *vst, int op, bool check)
     char when[96], ob[64];
     opstr(op, ob, sizeof(ob));
     snprintf(when, sizeof(when), "after step %d (%s)", st->nops, ob);
-    if (!st->p1_released)
+    if (!st->p1_released) {
         check_routing(st, when);
+        check_probe_fallback(st, when);
+    }
     check_callbacks(st, when);
     pxm_pause();
     if (st->viol) {
